@@ -43,6 +43,9 @@ var stopKinds = []StopCase{
 	{Kind: "long-timers", Node: "aggregator"},
 	{Kind: "long-timers", Node: "aggregator", Lazy: true},
 	{Kind: "long-timers", Node: "fullnode"},
+	// the sync loop (inside ExecuteTxs) and the inclusion loop (inside SetFinal) both fail when the node stops, and the
+	// node's error channel holds one error
+	{Kind: "exec-and-final-in-flight", Node: "fullnode"},
 }
 
 // runStop builds the situation, cancels, releases every double and requires every loop to return.
@@ -62,7 +65,7 @@ func runStop(r *vk.Run, c StopCase) {
 	}
 	defer doRelease()
 	var loops loopSet
-	errCh := make(chan error, 16)
+	errCh := make(chan error, 1) // as in node.FullNode.Run
 	opts := world.NodeOpts{Aggregator: c.Node == "aggregator", Lazy: c.Lazy, BlockTime: 5 * time.Millisecond, DABlockTime: 5 * time.Millisecond, LazyInterval: 20 * time.Millisecond, DAStartHeight: 1,
 		GenesisTime: time.Now().Add(-time.Hour)}
 	if c.Kind == "startup-delay" {
@@ -80,7 +83,7 @@ func runStop(r *vk.Run, c StopCase) {
 	var p *world.Produced
 	if c.Node == "fullnode" {
 		// a small genuine chain to feed the full node
-		spec := world.ChainSpec{Initial: 1, Blocks: [][][]byte{{[]byte("s-1")}, {[]byte("s-2")}, nil, {[]byte("s-3")}}}
+		spec := world.ChainSpec{Initial: 1, Blocks: [][][]byte{{[]byte("s-1")}, {[]byte("s-2")}, nil, {[]byte("s-3")}, {[]byte("s-4")}}}
 		var err error
 		p, err = world.ProduceChain(context.Background(), spec, keys)
 		if err != nil {
@@ -172,6 +175,10 @@ func runStop(r *vk.Run, c StopCase) {
 				da.Place(h, p.HeaderBlob[int(h)%len(p.HeaderBlob)])
 			}
 			da.Delay = func(kind string) { time.Sleep(200 * time.Microsecond) }
+		case "exec-and-final-in-flight":
+			exec.BlockFinal(true)
+			da.Place(1, p.HeaderBlob[0], p.HeaderBlob[1], p.DataBlob[1])
+			da.Place(2, p.HeaderBlob[2], p.DataBlob[2], p.HeaderBlob[3])
 		case "blocked-exec":
 			da.Place(1, p.HeaderBlob[0], p.HeaderBlob[1], p.DataBlob[1])
 		default:
@@ -209,6 +216,16 @@ func runStop(r *vk.Run, c StopCase) {
 		reachedPos = waitFor(60*time.Second, func() bool { return len(n.M.VerifDataInCh()) == world.EventChannelCapacity() })
 	case "mid-scan":
 		reachedPos = waitFor(20*time.Second, func() bool { return n.M.VerifDAHeight() > 50 })
+	case "exec-and-final-in-flight":
+		// first the finalization hangs (blocks keep being applied), then execution hangs too
+		reachedPos = waitFor(20*time.Second, func() bool { _, f := exec.InFlight(); return f > 0 })
+		if reachedPos {
+			exec.BlockCalls(true)
+			da.Place(3, p.HeaderBlob[4], p.DataBlob[4])
+			da.SetHeight(3)
+			n.M.VerifSignal("retrieve")
+			reachedPos = waitFor(20*time.Second, func() bool { e, f := exec.InFlight(); return e > 0 && f > 0 })
+		}
 	case "blocked-retrieve":
 		reachedPos = waitFor(20*time.Second, func() bool { return da.RetrieveInFlight() > 0 })
 	case "submit-backoff":
